@@ -90,13 +90,20 @@ func genEVK(t *rapid.T) EVKCase {
 	return c
 }
 
-func evkOps(p multiparty.EvaluationKeyGenProtocol, ek rlwe.EvaluationKeyParameters) aggOps[multiparty.EvaluationKeyGenShare] {
+func evkOps(p multiparty.EvaluationKeyGenProtocol, ek rlwe.EvaluationKeyParameters, c Common) aggOps[multiparty.EvaluationKeyGenShare] {
+	rng := c.junk()
 	return aggOps[multiparty.EvaluationKeyGenShare]{
 		clone: func(s multiparty.EvaluationKeyGenShare) multiparty.EvaluationKeyGenShare {
 			return multiparty.EvaluationKeyGenShare{GadgetCiphertext: *s.GadgetCiphertext.CopyNew()}
 		},
-		alloc: func() multiparty.EvaluationKeyGenShare { return p.AllocateShare(ek) },
-		add:   p.AggregateShares,
+		alloc: func() multiparty.EvaluationKeyGenShare {
+			s := p.AllocateShare(ek)
+			if c.DirtyOut {
+				dirtyGadget(&s.GadgetCiphertext, c.Params, rng)
+			}
+			return s
+		},
+		add: p.AggregateShares,
 		hop: func(s multiparty.EvaluationKeyGenShare, mode int) (multiparty.EvaluationKeyGenShare, error) {
 			var out multiparty.EvaluationKeyGenShare
 			b, err := hopBytes(mode, s.MarshalBinary, func(w *bytes.Buffer) (int64, error) { return s.WriteTo(w) }, s.BinarySize())
@@ -113,14 +120,22 @@ func evkOps(p multiparty.EvaluationKeyGenProtocol, ek rlwe.EvaluationKeyParamete
 	}
 }
 
-func galOps(p multiparty.GaloisKeyGenProtocol, ek rlwe.EvaluationKeyParameters) aggOps[multiparty.GaloisKeyGenShare] {
+func galOps(p multiparty.GaloisKeyGenProtocol, ek rlwe.EvaluationKeyParameters, c Common) aggOps[multiparty.GaloisKeyGenShare] {
+	rng := c.junk()
 	return aggOps[multiparty.GaloisKeyGenShare]{
 		clone: func(s multiparty.GaloisKeyGenShare) multiparty.GaloisKeyGenShare {
 			return multiparty.GaloisKeyGenShare{GaloisElement: s.GaloisElement,
 				EvaluationKeyGenShare: multiparty.EvaluationKeyGenShare{GadgetCiphertext: *s.GadgetCiphertext.CopyNew()}}
 		},
-		alloc: func() multiparty.GaloisKeyGenShare { return p.AllocateShare(ek) },
-		add:   p.AggregateShares,
+		alloc: func() multiparty.GaloisKeyGenShare {
+			s := p.AllocateShare(ek)
+			if c.DirtyOut {
+				dirtyGadget(&s.GadgetCiphertext, c.Params, rng)
+				s.GaloisElement = rng.Uint64() | 1
+			}
+			return s
+		},
+		add: p.AggregateShares,
 		hop: func(s multiparty.GaloisKeyGenShare, mode int) (multiparty.GaloisKeyGenShare, error) {
 			var out multiparty.GaloisKeyGenShare
 			b, err := hopBytes(mode, s.MarshalBinary, func(w *bytes.Buffer) (int64, error) { return s.WriteTo(w) }, s.BinarySize())
@@ -233,6 +248,7 @@ func runEVK(c EVKCase, rec *h.Rec) error {
 	be := int64(c.Params.Xe.AbsBound())
 	rowBound := big.NewInt(int64(n) * be)
 
+	junk := c.junk()
 	var evk *rlwe.EvaluationKey
 	var gk *rlwe.GaloisKey
 	var skIn, skOut *rlwe.SecretKey
@@ -274,6 +290,14 @@ func runEVK(c EVKCase, rec *h.Rec) error {
 				return err
 			}
 			shares[i] = protos[i].AllocateShare(ek)
+			switch c.Receiver {
+			case 1:
+				dirtyGadget(&shares[i].GadgetCiphertext, c.Params, junk)
+			case 2:
+				if err := protos[i].GenShare(skOuts[i], w.sks[i], protos[i].SampleCRP(junkCRS(c.Common), ek), &shares[i]); err != nil {
+					return h.Failf("C14:EVK:GenShare-error", "earlier use of the receiver, party %d: %v", i, err)
+				}
+			}
 			var in inputSnap
 			in.snap("secret-key-in", w.sks[i].Value)
 			in.snap("secret-key-out", skOuts[i].Value)
@@ -285,7 +309,7 @@ func runEVK(c EVKCase, rec *h.Rec) error {
 				return err
 			}
 		}
-		ops := evkOps(protos[0], ek)
+		ops := evkOps(protos[0], ek, c.Common)
 		ref, err := refAggregate(shares, ops)
 		if err != nil {
 			return h.Failf("C14:EVK:aggregation-failed", "index-order aggregation: %v", err)
@@ -301,6 +325,9 @@ func runEVK(c EVKCase, rec *h.Rec) error {
 			}
 		}
 		evk = rlwe.NewEvaluationKey(params, ek)
+		if c.DirtyOut {
+			dirtyGadget(&evk.GadgetCiphertext, c.Params, junk)
+		}
 		if _, err := finalize(rec, func() error { return protos[n-1].GenEvaluationKey(got, crps[n-1], evk) },
 			&got.GadgetCiphertext, crps[n-1].Value, evk); err != nil {
 			return err
@@ -328,6 +355,18 @@ func runEVK(c EVKCase, rec *h.Rec) error {
 				return err
 			}
 			shares[i] = protos[i].AllocateShare(ek)
+			switch c.Receiver {
+			case 1:
+				dirtyGadget(&shares[i].GadgetCiphertext, c.Params, junk)
+				shares[i].GaloisElement = junk.Uint64() | 1
+			case 2:
+				// an earlier share for another Galois element (the inverse one) and another CRP
+				if _, _, err := protect(func() error {
+					return protos[i].GenShare(w.sks[i], gInv, protos[i].SampleCRP(junkCRS(c.Common), ek), &shares[i])
+				}); err != nil {
+					return h.Failf("C14:GKG:GenShare-error", "earlier use of the receiver, party %d: %v", i, err)
+				}
+			}
 			var in inputSnap
 			in.snap("secret-key", w.sks[i].Value)
 			in.snap("crp", flatMatrix(crps[i].Value)...)
@@ -356,7 +395,7 @@ func runEVK(c EVKCase, rec *h.Rec) error {
 				return h.Failf("C14:GKG:GenShare-error", "party %d: %v", i, err)
 			}
 		}
-		ops := galOps(protos[0], ek)
+		ops := galOps(protos[0], ek, c.Common)
 		ref, err := refAggregate(shares, ops)
 		if err != nil {
 			return h.Failf("C14:GKG:aggregation-failed", "index-order aggregation: %v", err)
@@ -375,6 +414,10 @@ func runEVK(c EVKCase, rec *h.Rec) error {
 			}
 		}
 		gk = rlwe.NewGaloisKey(params, ek)
+		if c.DirtyOut {
+			dirtyGadget(&gk.GadgetCiphertext, c.Params, junk)
+			gk.GaloisElement, gk.NthRoot = junk.Uint64()|1, 4
+		}
 		completed, err := finalize(rec, func() error { return protos[n-1].GenGaloisKey(got, crps[n-1], gk) },
 			&got.GadgetCiphertext, crps[n-1].Value, &gk.EvaluationKey)
 		if err != nil {
@@ -437,6 +480,7 @@ func runEVK(c EVKCase, rec *h.Rec) error {
 	}
 
 	rec.Class(c.Kind)
+	rec.Class(c.receiverClass())
 	rec.Class(nClass(n))
 	rec.Class(ringClass(c.Params))
 	rec.Class(c.Sched.descr())
@@ -449,9 +493,9 @@ func runEVK(c EVKCase, rec *h.Rec) error {
 	if uneq {
 		rec.Class("unequal-digit-counts")
 	}
-	if c.Sched.nontrivial() || uneq {
+	if c.Sched.nontrivial() || uneq || c.Receiver != 0 || c.DirtyOut {
 		rec.NonTrivial(fmt.Sprintf("%s|%s|%s|%s|%s|%s|uneq=%v|func=%s|ct<key=%v|shallow=%v", c.Kind, nClass(n), ringClass(c.Params), c.Sched.descr(),
-			keyClass(c.Params, c.Key), sizeClass(c.Params.Q), uneq, functional, c.CtLevel < c.Key.LevelQ, c.Shallow) + fmt.Sprintf("|lift=%v", c.GalLift != 0))
+			keyClass(c.Params, c.Key), sizeClass(c.Params.Q), uneq, functional, c.CtLevel < c.Key.LevelQ, c.Shallow) + fmt.Sprintf("|lift=%v|%s", c.GalLift != 0, c.receiverClass()))
 	}
 	return nil
 }
